@@ -7,10 +7,6 @@ Open Scope list_scope.
 
 (* ------------------------------------------------------------------ guards *)
 
-(* no attribute the analyser substitutes is None when the analysis starts *)
-Definition no_patched_attr_is_None (s : st) : Prop :=
-  forall q, In q all_patched -> get (pkey q) s <> Some VNone.
-
 (* the state in which the restores start: after the script (or where _parse_setup_py stopped early) *)
 Definition pre_exit_state (e : env) (p : program) (s : st) : st :=
   let '(s1, ot) := patch_enter outer_patched outer_base (with_vcwd (e_root e) s) in
@@ -18,10 +14,6 @@ Definition pre_exit_state (e : env) (p : program) (s : st) : st :=
   | inr s2 => s2
   | inl (s2, tk) => fst (body e p s2)
   end.
-
-(* attributes that did not exist and were created by the analyser have not been deleted by the script *)
-Definition created_attrs_still_present (s sp : st) : Prop :=
-  forall q, In q all_patched -> target_ok q s = true -> get (pkey q) s = None -> get (pkey q) sp <> None.
 
 (* by-name targets are never among the fake module names, so loading the fakes does not change
    which by-name targets exist *)
@@ -56,15 +48,6 @@ Qed.
 Lemma in_all_inner : forall q, In q inner_patched -> In q all_patched.
 Proof. intros; unfold all_patched; apply in_or_app; right; apply in_or_app; right; auto. Qed.
 
-Lemma safe_from_guard : forall s sp q old,
-  no_patched_attr_is_None s -> created_attrs_still_present s sp -> In q all_patched -> target_ok q s = true ->
-  old = old_of (get (pkey q) s) -> old <> VNone \/ get (pkey q) sp <> None.
-Proof.
-  intros s sp q old NN CP Hq OK ->. destruct (get (pkey q) s) as [v|] eqn:G.
-  - left. cbn. intros ->. exact (NN q Hq G).
-  - right. apply CP; auto.
-Qed.
-
 (* ------------------------------------------------------------------ the analyser, script reached *)
 
 Lemma analyse_inl : forall root hook cy p s s1 ot s2 tk,
@@ -72,20 +55,20 @@ Lemma analyse_inl : forall root hook cy p s s1 ot s2 tk,
   patch_enter outer_patched outer_base (with_vcwd root s) = (s1, ot) ->
   enter_parse e s1 = inl (s2, tk) ->
   snd (body e p s2) <> Died ->
-  no_patched_attr_is_None s -> created_attrs_still_present s (fst (body e p s2)) ->
   let sp := fst (body e p s2) in
   exists s', analyse root hook cy false p s = Alive s' /\
     (forall q, In q all_patched -> target_ok q s = true -> get (pkey q) s' = get (pkey q) s) /\
-    aframe (k_cythonize :: outer_keys ++ begin_keys ++ inner_keys) sp s' /\
-    cwd s' = cwd sp /\ path s' = remove_first_s root (path sp) /\
+    aframe (misc_keys ++ outer_keys ++ begin_keys ++ inner_keys) sp s' /\
+    get k_showwarning s' = get k_showwarning (uncap tk sp) /\
+    get k_saved_showwarning s' = get k_saved_showwarning (uncap tk sp) /\
+    cwd s' = cwd sp /\ path s' = t_saved_path tk /\
     (mem_n hook (meta sp) = true -> meta s' = remove_first_n hook (meta sp)) /\
     (mem_n hook (meta sp) = true -> callable e sp = true ->
        mods s' = filter (fun m => is_plain (snd m)) (mods sp)).
 Proof.
-  intros root hook cy p s s1 ot s2 tk e PE EP ND NN CP sp.
+  intros root hook cy p s s1 ot s2 tk e PE EP ND sp.
   set (s0 := with_vcwd root s) in *.
   destruct (patch_enter_spec _ _ _ _ _ PE outer_nodup) as (F1 & T1 & I1 & ND1 & IN1).
-  pose proof (patch_enter_tokens _ _ _ _ _ PE outer_nodup) as TK1.
   rewrite enter_parse_unfold in EP.
   pose proof (pre_begin_facts e s1) as PB. cbv zeta in PB.
   destruct (pre_begin e s1) as [[s3 oldc]|] eqn:PBE; [|discriminate]. cbn [pre_state] in PB.
@@ -95,9 +78,7 @@ Proof.
   destruct (patch_enter inner_patched inner_base s5) as [s6 it] eqn:PI.
   inversion EP; subst s2 tk; clear EP.
   destruct (begin_all_spec _ _ _ _ _ BA begin_nodup) as (F4 & T4 & N4 & IN4).
-  pose proof (begin_all_tokens _ _ _ _ _ BA begin_nodup) as TK4.
   destruct (patch_enter_spec _ _ _ _ _ PI inner_nodup) as (F6 & T6 & I6 & ND6 & IN6).
-  pose proof (patch_enter_tokens _ _ _ _ _ PI inner_nodup) as TK6.
   (* attribute chains *)
   assert (G1 : forall k, ~ In k outer_keys -> get k s1 = get k s).
   { intros k N. destruct F1 as [F1 _]. rewrite F1 by exact N. reflexivity. }
@@ -116,31 +97,11 @@ Proof.
   assert (TO5 : forall q, In q all_patched -> target_ok q s5 = target_ok q s).
   { intros q Hq. rewrite <- (TO3 q Hq). unfold target_ok, s5; cbn. rewrite MS4. reflexivity. }
   destruct (body e p s6) as [sp' oc] eqn:BD. cbn [fst snd] in *. subst sp.
-  (* safety of the three token sets in sp' *)
-  assert (So : Forall (tok_safe sp') ot).
-  { apply Forall_forall. intros [[k old]|] Ht; cbn; auto.
-    destruct (TK1 k old Ht) as [(q & Hq & <- & OKq) _].
-    rewrite Forall_forall in T1. specialize (T1 _ Ht). cbn in T1.
-    apply (safe_from_guard s sp' q old NN CP (in_all_outer q Hq)); auto. }
-  assert (Si : Forall (tok_safe sp') it).
-  { apply Forall_forall. intros [[k old]|] Ht; cbn; auto.
-    destruct (TK6 k old Ht) as [(q & Hq & <- & OKq) _].
-    rewrite Forall_forall in T6. specialize (T6 _ Ht). cbn in T6.
-    assert (Hk : In (pkey q) inner_keys) by (apply in_map; exact Hq).
-    apply (safe_from_guard s sp' q old NN CP (in_all_inner q Hq)).
-    - rewrite <- (TO5 q (in_all_inner q Hq)). exact OKq.
-    - rewrite T6. f_equal. apply G5; [apply inner_not_outer|apply inner_not_misc|apply inner_not_begin]; exact Hk. }
-  assert (Sb : forall k, In k begin_keys ->
-             tok_safe sp' (token_for k bt) /\ incl (tkey (token_for k bt)) [k]).
-  { intros k Hk. destruct (T4 k Hk) as [To Inc]. split; [|exact Inc].
-    destruct (token_for k bt) as [[k' old]|] eqn:TF; cbn; auto.
-    destruct (TK4 k k' old TF) as (-> & (q & g & Hq & <- & OKq) & _).
-    cbn in To.
-    apply (safe_from_guard s sp' q old NN CP (in_all_begin q g Hq)).
-    - rewrite <- (TO3 q (in_all_begin q g Hq)). exact OKq.
-    - rewrite To. f_equal. apply G3; [apply begin_not_outer|intros X; exact (misc_not_begin _ X Hk)]; exact Hk. }
-  destruct (exit_phase e (mkToks oldc bt it) ot (match oc with Exc => true | _ => false end) sp'
-              ND1 I1 So ND6 I6 Si Sb) as (s4' & exc' & s' & XP & XO & Vo & Vi & Vb & AF & Cw & Pa & Me & Mo).
+  assert (Sb : forall k, In k begin_keys -> incl (tkey (token_for k bt)) [k]).
+  { intros k Hk. destruct (T4 k Hk) as [_ Inc]. exact Inc. }
+  destruct (exit_phase e (mkToks oldc bt it (capture_started s1) (path s4)) ot
+              (match oc with Exc => true | _ => false end) sp'
+              ND1 I1 ND6 I6 Sb) as (s4' & exc' & s' & XP & XO & Vo & Vi & Vb & AF & SW & SV & Cw & Pa & Me & Mo).
   exists s'. split.
   { unfold analyse, analyse_env. fold e. change (e_early e) with false. change (e_root e) with root.
     fold s0. rewrite PE. cbv iota.
@@ -148,21 +109,19 @@ Proof.
     destruct oc; [| |exfalso; apply ND; reflexivity]; rewrite XP; cbn [orb]; rewrite XO; reflexivity. }
   split.
   { intros q Hq OK. unfold all_patched in Hq. apply in_app_or in Hq. destruct Hq as [Hq|Hq].
-    - specialize (IN1 q Hq OK). rewrite (Vo _ _ IN1). apply undo_old_of. apply NN. apply in_all_outer; exact Hq.
+    - specialize (IN1 q Hq OK). rewrite (Vo _ _ IN1). reflexivity.
     - apply in_app_or in Hq. destruct Hq as [Hq|Hq].
       + apply in_map_iff in Hq. destruct Hq as [[q' g] [E Hq]]. cbn in E. subst q'.
         assert (Hk : In (pkey q) begin_keys) by (unfold begin_keys; apply in_map_iff; exists (q, g); auto).
         assert (OK3 : target_ok q s3 = true) by (rewrite (TO3 q (in_all_begin q g Hq)); exact OK).
         pose proof (IN4 q g Hq OK3) as TF.
         rewrite (Vb _ Hk _ _ TF).
-        rewrite G3 by (try (apply begin_not_outer; exact Hk); intros X; exact (misc_not_begin _ X Hk)).
-        apply undo_old_of. apply NN. apply (in_all_begin q g Hq).
+        apply G3; [apply begin_not_outer; exact Hk|intros X; exact (misc_not_begin _ X Hk)].
       + assert (Hk : In (pkey q) inner_keys) by (apply in_map; exact Hq).
         assert (OK5 : target_ok q s5 = true) by (rewrite (TO5 q (in_all_inner q Hq)); exact OK).
         pose proof (IN6 q Hq OK5) as TI. rewrite (Vi _ _ TI).
-        rewrite G5 by (try (apply inner_not_outer; exact Hk); try (apply inner_not_misc; exact Hk); apply inner_not_begin; exact Hk).
-        apply undo_old_of. apply NN. apply in_all_inner; exact Hq. }
-  split; [exact AF|]. split; [exact Cw|]. split; [exact Pa|]. split; [exact Me|exact Mo].
+        apply G5; [apply inner_not_outer|apply inner_not_misc|apply inner_not_begin]; exact Hk. }
+  split; [exact AF|]. split; [exact SW|]. split; [exact SV|]. split; [exact Cw|]. split; [exact Pa|]. split; [exact Me|exact Mo].
 Qed.
 
 (* ------------------------------------------------------------------ host originals bound to one attribute only *)
@@ -293,6 +252,9 @@ Proof.
   intros e tk f s s' H. destruct f; cbn in H.
   - destruct (t_old_cython tk) as [[| | |]|]; inversion H; reflexivity.
   - inversion H; reflexivity.
+  - inversion H; reflexivity.
+  - inversion H; subst. destruct (uncap_facts tk s) as [_ R]. unfold rest in R.
+    exact (f_equal (fun x => fst (fst (fst x))) R).
   - pose proof (end_patch_frame _ _ _ H) as [_ R]. unfold rest in R.
     exact (f_equal (fun x => fst (fst (fst x))) R).
   - destruct (mem_n (e_hook e) (meta s)); inversion H; reflexivity.
@@ -587,7 +549,7 @@ Qed.
 
 Lemma enter_parse_rest : forall e s s' tk,
   enter_parse e s = inl (s', tk) -> (forall n, In n fake_names -> mmem n (mods s) = false) ->
-  path s' = path s /\ meta s' = meta s ++ [e_hook e] /\ stacked (mods s) (mods s').
+  path s' = path s /\ meta s' = meta s ++ [e_hook e] /\ stacked (mods s) (mods s') /\ t_saved_path tk = path s.
 Proof.
   intros e s s' tk E H. rewrite enter_parse_unfold in E.
   pose proof (pre_begin_facts e s) as PB. cbv zeta in PB.
@@ -604,7 +566,7 @@ Proof.
   pose proof (f_equal (fun x => snd (fst (fst x))) R4) as Hp4; cbn in Hp4.
   pose proof (f_equal (fun x => snd (fst x)) R4) as Hm4; cbn in Hm4.
   pose proof (f_equal (fun x => snd x) R4) as Hd4; cbn in Hd4.
-  split; [congruence|]. split; [congruence|]. rewrite Hd, Hd4. exact SM.
+  split; [congruence|]. split; [congruence|]. split; [rewrite Hd, Hd4; exact SM|]. cbn. congruence.
 Qed.
 
 Lemma body_rest : forall e p s m0,
@@ -652,12 +614,15 @@ Definition C13_full_statement : Prop :=
                listed_state (effective_keys s) s' = listed_state (effective_keys s) s /\
                (forall k, In k (effective_keys s) -> content (get k s) s' = content (get k s) s).
 
+(* Every script, every ending: the process survives and the listed state is what it was.  What is
+   left as guards: the host's os.chdir/os._exit are not aliased under another modelled attribute; the
+   hook object is new; host modules are plain, fake names unused, the script's module operations
+   stay off host modules; os.path.abspath still works when the script ends. *)
 Theorem setup_py_partial : forall root hook cy p s,
   let e := mk_env root hook cy false s in
   let sp := pre_exit_state e p s in
-  no_patched_attr_is_None s -> created_attrs_still_present s sp ->
   host_function_unaliased k_chdir s -> host_function_unaliased k_exit s ->
-  mem_n hook (meta s) = false -> no_path_ins (fst p) ->
+  mem_n hook (meta s) = false ->
   (cy = true -> get k_cythonize s <> None) ->
   forallb (fun m => is_plain (snd m)) (mods s) = true ->
   (forall n, In n fake_names -> mmem n (mods s) = false) ->
@@ -665,8 +630,8 @@ Theorem setup_py_partial : forall root hook cy p s,
   exists s', analyse root hook cy false p s = Alive s' /\
     listed_state (effective_keys s) s' = listed_state (effective_keys s) s.
 Proof.
-  intros root hook cy p s e sp NN CP HC HE HK NP CY PL FK MO CA.
-  unfold sp, pre_exit_state in CP, CA. change (e_root e) with root in CP, CA.
+  intros root hook cy p s e sp HC HE HK CY PL FK MO CA.
+  unfold sp, pre_exit_state in CA. change (e_root e) with root in CA.
   set (s0 := with_vcwd root s) in *.
   pose proof (patch_enter_rest outer_patched outer_base s0) as R1.
   destruct (patch_enter outer_patched outer_base s0) as [s1 ot] eqn:PE. cbn [fst] in R1.
@@ -678,19 +643,26 @@ Proof.
   2:{ exfalso. destruct (enter_parse_inr_inv _ _ _ EP) as [C G]. apply (CY C).
       destruct (patch_enter_spec _ _ _ _ _ PE outer_nodup) as ([F1 _] & _).
       rewrite <- G. symmetry. rewrite F1; [reflexivity|]. apply misc_not_outer. apply cythonize_in_misc. }
-  (* the process survives *)
   destruct HE as [HrE HnE].
   assert (N2 : novalue (e_real_exit e) s2).
   { eapply enter_parse_novalue_exit; eauto. eapply nve_patch_enter; eauto. }
   pose proof (body_not_died e p s2 HrE N2) as ND.
-  destruct (analyse_inl root hook cy p s s1 ot s2 tk PE EP ND NN CP) as (s' & A & AT & _ & _ & PA & ME & MD).
+  destruct (analyse_inl root hook cy p s s1 ot s2 tk PE EP ND) as (s' & A & AT & _ & _ & _ & _ & PA & ME & MD).
   exists s'. split; [exact A|].
-  (* sys.path, sys.meta_path, sys.modules *)
   assert (FK1 : forall n, In n fake_names -> mmem n (mods s1) = false) by (intros n Hn; rewrite D1; apply FK; exact Hn).
-  destruct (enter_parse_rest _ _ _ _ EP FK1) as (P2 & M2 & S2).
+  destruct (enter_parse_rest _ _ _ _ EP FK1) as (P2 & M2 & S2 & SP).
   rewrite D1 in S2.
-  destruct (body_rest e p s2 (mods s) NP S2 MO) as (P3 & M3 & S3).
-  change (e_root e) with root in P3. change (e_hook e) with hook in M2.
+  assert (M3 : meta (fst (body e p s2)) = meta s2).
+  { unfold body. cbn [fst]. rewrite run_ops_meta.
+    destruct (do_chdir_facts (fake_of outer_patched outer_base k_chdir) (e_real_chdir e) (e_root e)
+                (if path_insert_in_try then with_path (e_root e :: path s2) s2 else s2)) as (_ & _ & M & _).
+    rewrite M. destruct path_insert_in_try; reflexivity. }
+  assert (S3 : stacked (mods s) (mods (fst (body e p s2)))).
+  { unfold body. cbn [fst]. apply run_ops_mods; auto.
+    destruct (do_chdir_facts (fake_of outer_patched outer_base k_chdir) (e_real_chdir e) (e_root e)
+                (if path_insert_in_try then with_path (e_root e :: path s2) s2 else s2)) as (_ & _ & _ & D & _).
+    rewrite D. destruct path_insert_in_try; exact S2. }
+  change (e_hook e) with hook in M2.
   unfold e in *.
   assert (MEM : mem_n hook (meta (fst (body (mk_env root hook cy false s) p s2))) = true).
   { rewrite M3, M2. apply mem_n_app_last. }
@@ -698,85 +670,76 @@ Proof.
   - apply map_ext_in. intros k Hk. unfold effective_keys in Hk. apply in_map_iff in Hk.
     destruct Hk as (q & <- & Hq). apply filter_In in Hq. destruct Hq as [Hq OK]. apply AT; auto.
   - eapply cwd_unchanged; eauto.
-  - rewrite PA, P3, remove_first_s_head. congruence.
+  - rewrite PA, SP. exact P1.
   - rewrite (ME MEM), M3, M2, M1. apply remove_first_n_last. exact HK.
   - rewrite (MD MEM CA). apply stacked_purge; auto.
 Qed.
 
-(* when every substituted attribute exists and is not None, no script can break the restore *)
-Definition all_patched_attrs_present (s : st) : Prop :=
-  forall q, In q all_patched -> target_ok q s = true -> exists v, get (pkey q) s = Some v /\ v <> VNone.
-
-Lemma present_no_none : forall s, all_patched_attrs_present s ->
-  (forall q, In q all_patched -> target_ok q s = false -> get (pkey q) s <> Some VNone) ->
-  no_patched_attr_is_None s.
-Proof.
-  intros s H H2 q Hq. destruct (target_ok q s) eqn:OK; [|apply H2; auto].
-  destruct (H q Hq OK) as (v & -> & N). intros X; inversion X; contradiction.
-Qed.
-
+(* For ALL scripts, all four endings and ANY state: every effectively substituted attribute is the
+   original again - None-valued ones and ones the script deleted included. *)
 Theorem setup_py_all_programs_attrs : forall root hook cy s,
-  no_patched_attr_is_None s -> all_patched_attrs_present s -> host_function_unaliased k_exit s ->
+  host_function_unaliased k_exit s ->
   forall p, exists s', analyse root hook cy false p s = Alive s' /\
-    (forall q, In q all_patched -> target_ok q s = true -> get (pkey q) s' = get (pkey q) s).
+    (forall q, In q all_patched -> target_ok q s = true -> get (pkey q) s' = get (pkey q) s) /\
+    path s' = path s.
 Proof.
-  intros root hook cy s NN AP HE p.
-  assert (CP : forall sp, created_attrs_still_present s sp).
-  { intros sp q Hq OK G. destruct (AP q Hq OK) as (v & G' & _). congruence. }
+  intros root hook cy s HE p.
   set (e := mk_env root hook cy false s).
   set (s0 := with_vcwd root s).
-  destruct (patch_enter outer_patched outer_base s0) as [s1 ot] eqn:PE.
+  pose proof (patch_enter_rest outer_patched outer_base s0) as R1.
+  destruct (patch_enter outer_patched outer_base s0) as [s1 ot] eqn:PE. cbn [fst] in R1.
+  assert (P1 : path s1 = path s) by (unfold rest in R1; exact (f_equal (fun x => snd (fst (fst x))) R1)).
   destruct (patch_enter_spec _ _ _ _ _ PE outer_nodup) as (F1 & T1 & I1 & ND1 & IN1).
-  pose proof (patch_enter_tokens _ _ _ _ _ PE outer_nodup) as TK1.
   destruct (enter_parse e s1) as [[s2 tk]|s2] eqn:EP.
   - destruct HE as [HrE HnE].
     assert (N2 : novalue (e_real_exit e) s2).
     { eapply enter_parse_novalue_exit; eauto. eapply nve_patch_enter; eauto. }
     pose proof (body_not_died e p s2 HrE N2) as ND.
-    destruct (analyse_inl root hook cy p s s1 ot s2 tk PE EP ND NN (CP _)) as (s' & A & AT & _).
-    exists s'. split; auto.
+    destruct (analyse_inl root hook cy p s s1 ot s2 tk PE EP ND) as (s' & A & AT & _ & _ & _ & _ & PA & _).
+    exists s'. split; auto. split; auto.
+    rewrite PA. rewrite enter_parse_unfold in EP.
+    pose proof (pre_begin_facts e s1) as PB. cbv zeta in PB.
+    destruct (pre_begin e s1) as [[s3 oldc]|]; [|discriminate]. cbn in PB. destruct PB as (_ & _ & P3 & _).
+    pose proof (begin_all_rest begin_patched begin_base s3) as R4.
+    destruct (begin_all begin_patched begin_base s3) as [s4 bt]. cbn in R4.
+    destruct (patch_enter inner_patched inner_base (with_meta (meta s4 ++ [e_hook e]) s4)) as [s6 it].
+    inversion EP; subst. cbn. unfold rest in R4. pose proof (f_equal (fun x => snd (fst (fst x))) R4) as X; cbn in X. congruence.
   - (* _parse_setup_py stopped before the try: only the outer patch was entered *)
     rewrite enter_parse_unfold in EP.
     pose proof (pre_begin_facts e s1) as PB. cbv zeta in PB.
     destruct (pre_begin e s1) as [[s3 oldc]|s3] eqn:PBE.
     { destruct (begin_all begin_patched begin_base s3) as [s4 bt].
       destruct (patch_enter inner_patched inner_base (with_meta (meta s4 ++ [e_hook e]) s4)); discriminate. }
-    inversion EP; subst s3; clear EP. cbn [pre_state] in PB. destruct PB as (A3 & _).
-    assert (So : Forall (tok_safe s2) ot).
-    { apply Forall_forall. intros [[k old]|] Ht; cbn; auto.
-      destruct (TK1 k old Ht) as [(q & Hq & <- & OKq) G]. right.
-      rewrite A3; [exact G|]. intros X. exact (misc_not_outer _ X (in_map pkey _ _ Hq)). }
-    destruct (patch_exit_spec ot s2 ND1 So) as (s' & X' & F' & V').
+    inversion EP; subst s3; clear EP. cbn [pre_state] in PB. destruct PB as (A3 & _ & P3 & _).
+    destruct (patch_exit_spec ot s2 ND1) as (s' & X' & F' & V').
     exists s'. split.
     { unfold analyse, analyse_env. fold e. change (e_early e) with false. change (e_root e) with root.
       fold s0. rewrite PE. cbv iota. rewrite enter_parse_unfold, PBE. rewrite X'. reflexivity. }
-    intros q Hq OK. unfold all_patched in Hq. apply in_app_or in Hq. destruct Hq as [Hq|Hq].
-    + specialize (IN1 q Hq OK). rewrite (V' _ _ IN1). apply undo_old_of. apply NN. apply in_all_outer; exact Hq.
-    + assert (NO : ~ In (pkey q) outer_keys /\ ~ In (pkey q) misc_keys).
-      { apply in_app_or in Hq. destruct Hq as [Hq|Hq].
-        - apply in_map_iff in Hq. destruct Hq as [[q' g] [E Hq]]. cbn in E. subst q'.
-          assert (Hk : In (pkey q) begin_keys) by (unfold begin_keys; apply in_map_iff; exists (q, g); auto).
-          split; [apply begin_not_outer; exact Hk|intros X; exact (misc_not_begin _ X Hk)].
-        - assert (Hk : In (pkey q) inner_keys) by (apply in_map; exact Hq).
-          split; [apply inner_not_outer; exact Hk|apply inner_not_misc; exact Hk]. }
-      destruct NO as [NO NM]. destruct F' as [F' _]. rewrite F' by (intros X; apply NO; apply I1; exact X).
-      rewrite A3 by exact NM. destruct F1 as [F1 _]. rewrite F1 by exact NO. reflexivity.
+    split.
+    + intros q Hq OK. unfold all_patched in Hq. apply in_app_or in Hq. destruct Hq as [Hq|Hq].
+      * specialize (IN1 q Hq OK). rewrite (V' _ _ IN1). reflexivity.
+      * assert (NO : ~ In (pkey q) outer_keys /\ ~ In (pkey q) misc_keys).
+        { apply in_app_or in Hq. destruct Hq as [Hq|Hq].
+          - apply in_map_iff in Hq. destruct Hq as [[q' g] [E Hq]]. cbn in E. subst q'.
+            assert (Hk : In (pkey q) begin_keys) by (unfold begin_keys; apply in_map_iff; exists (q, g); auto).
+            split; [apply begin_not_outer; exact Hk|intros X; exact (misc_not_begin _ X Hk)].
+          - assert (Hk : In (pkey q) inner_keys) by (apply in_map; exact Hq).
+            split; [apply inner_not_outer; exact Hk|apply inner_not_misc; exact Hk]. }
+        destruct NO as [NO NM]. destruct F' as [F' _]. rewrite F' by (intros X; apply NO; apply I1; exact X).
+        rewrite A3 by exact NM. destruct F1 as [F1 _]. rewrite F1 by exact NO. reflexivity.
+    + destruct F' as [_ R']. unfold rest in R'. pose proof (f_equal (fun x => snd (fst (fst x))) R') as X; cbn in X. congruence.
 Qed.
 
 (* early returns of _fetch_from_setup_py (project named setuptools, no setup.py/setup.cfg):
-   every attribute and everything else is as before *)
+   every attribute and everything else is as before, whatever the state *)
 Theorem early_return_restores : forall root hook cy p s,
-  no_patched_attr_is_None s ->
   exists s', analyse root hook cy true p s = Alive s' /\ (forall k, get k s' = get k s) /\ rest s' = rest s.
 Proof.
-  intros root hook cy p s NN.
+  intros root hook cy p s.
   set (e := mk_env root hook cy true s). set (s0 := with_vcwd root s).
   destruct (patch_enter outer_patched outer_base s0) as [s1 ot] eqn:PE.
   destruct (patch_enter_spec _ _ _ _ _ PE outer_nodup) as (F1 & T1 & I1 & ND1 & IN1).
-  pose proof (patch_enter_tokens _ _ _ _ _ PE outer_nodup) as TK1.
-  assert (So : Forall (tok_safe s1) ot).
-  { apply Forall_forall. intros [[k old]|] Ht; cbn; auto. destruct (TK1 k old Ht) as [_ G]. right; exact G. }
-  destruct (patch_exit_spec ot s1 ND1 So) as (s' & X' & F' & V').
+  destruct (patch_exit_spec ot s1 ND1) as (s' & X' & F' & V').
   exists s'. split.
   { unfold analyse, analyse_env. fold e. change (e_early e) with true. change (e_root e) with root.
     fold s0. rewrite PE. cbv iota. rewrite X'. reflexivity. }
@@ -788,7 +751,7 @@ Proof.
         repeat (apply andb_true_iff in G; destruct G as [G ?]).
         match goal with H : forallb _ outer_patched = true |- _ => rewrite forallb_forall in H; specialize (H q Hq) end.
         destruct (p_byname q); [discriminate|reflexivity]. }
-      rewrite (V' _ _ (IN1 q Hq OK)). apply undo_old_of. apply NN. apply in_all_outer; exact Hq.
+      rewrite (V' _ _ (IN1 q Hq OK)). reflexivity.
     + destruct F' as [F' _]. rewrite F' by (intros X; apply Hk; apply I1; exact X).
       destruct F1 as [F1 _]. rewrite F1 by exact Hk. reflexivity.
   - destruct F' as [_ R'], F1 as [_ R1]. rewrite R', R1. reflexivity.
